@@ -486,6 +486,16 @@ pub mod r#async {
         }
     }
 
+    #[cfg(feature = "verif-hooks")]
+    impl<R: ?Sized> Drop for GetVarint<'_, R> {
+        fn drop(&mut self) {
+            if self.offset > 0 && self.offset < self.varint_size {
+                crate::verif_hooks::PARTIAL_READ_DROPS
+                    .fetch_add(1, std::sync::atomic::Ordering::Relaxed);
+            }
+        }
+    }
+
     impl<R> Future for GetVarint<'_, R>
     where
         R: AsyncRead + Unpin + ?Sized,
@@ -558,6 +568,16 @@ pub mod r#async {
                 reader,
                 buffer,
                 offset: 0,
+            }
+        }
+    }
+
+    #[cfg(feature = "verif-hooks")]
+    impl<R: ?Sized> Drop for GetBuffer<'_, R> {
+        fn drop(&mut self) {
+            if self.offset > 0 && self.offset < self.buffer.len() {
+                crate::verif_hooks::PARTIAL_READ_DROPS
+                    .fetch_add(1, std::sync::atomic::Ordering::Relaxed);
             }
         }
     }
